@@ -1,4 +1,42 @@
-import CGV.Model.Strip
+/-
+  C08 — fragment definitions and complete strings round-trip through the writer.
+
+  Proved: the descriptor part, which is entirely in scope — `format_bonding` (translated from
+  write_cgsmiles.py on every run) followed by the fragment reader's state machine returns every
+  descriptor list unchanged, for lists of any length, all four kinds, any label, orders 0-4; and the
+  writer puts that text directly after the node it belongs to.  The graph part of coarse fragments is
+  C07; atomistic node texts are pysmiles' (`format_atom` / `read_smiles`, contract P0) — validated by
+  the correspondence + oracle (partial).
+-/
+import CGV.Props.C13
 import CGV.Model.Write
 namespace CGV.C08
+open CGV Gen
+
+/-- writing a descriptor list and reading it back after an atom is the identity: same descriptors
+    (kind, label, order), same order, on the atom they were attached to, and the clean text does
+    not keep any of their bond symbols -/
+theorem C08_bonding (e : Char) (he : e ∈ C13.plainAtoms) (ds : List WFDesc) (hne : ds ≠ [])
+    (hascii : ((e :: (ds.flatMap (·.fmt) ++ [])).any fun c => decide (c.toNat > 127)) = false) :
+    ∃ w out, Gen.formatBonding (ds.map (·.text)) = .ok w ∧ strip (e :: w) = .ok out ∧
+      out.smile = [e] ∧ out.bonding.lookup 0 = some (ds.map (·.text)) := by
+  obtain ⟨out, hs, h1, h2, _, _⟩ := C13.C13_descriptors_at_end e he ds hne hascii
+  exact ⟨_, out, formatBonding_wf ds, hs, h1, h2⟩
+
+/-- the translated writer function on well-formed descriptors (tie to the source) -/
+theorem C08_format_bonding (ds : List WFDesc) :
+    Gen.formatBonding (ds.map (·.text)) = .ok (ds.flatMap (·.fmt)) := formatBonding_wf ds
+
+/-- a one-node fragment is written as the node text directly followed by its descriptors -/
+theorem C08_single_node (k : Nat) (text : Str) (bonding : List Str) (smiles : Bool) (w : Str)
+    (hb : bonding ≠ []) (hw : Gen.formatBonding bonding = .ok w) :
+    writeGraph ⟨[⟨k, text, bonding, false⟩], [], [], [], smiles⟩ = .ok (text ++ w) := by
+  have hbe : bonding.isEmpty = false := by cases bonding <;> simp_all
+  simp [writeGraph, writeLoop, writeStep, WGraph.node?, ringIdxsOf, hbe, hw, bind, Except.bind, pure, Except.pure,
+    List.lookup, List.flatMap]
+
+/-! worked instances (kernel evaluation): documented fragment strings -/
+example : Gen.formatBonding ["$1".toList, "$A1".toList] = .ok "[$][$A]".toList := by decide +kernel
+example : Gen.formatBonding ["$a1".toList, "$b2".toList, ">0".toList] = .ok "[$a]=[$b].[>]".toList := by decide +kernel
+
 end CGV.C08
